@@ -26,7 +26,20 @@ QUICK_GRIDS = [
     for fr in ([], [0], [1], [0, 1])
     for cs in ([0.5, 0.5], [0.5, 1.0], [1.0, 0.5], [1.0, 1.0])
 ]
+# md-grids whose grid ids are NOT monotone in dimension: the mesher-built md-grid is
+# re-assembled by hand from copies that are created in reversed ("rev": lowest dimension
+# first) or shuffled ("mix") order, subdomains and interfaces alike, so that the order of
+# mdg.subdomains()/mdg.interfaces() (descending dimension, then id) differs from id order
+QUICK_GRIDS = QUICK_GRIDS + [
+    {"kind": "sq", "fracs": fr, "cs": cs, "ids": ids}
+    for fr, cs, ids in (
+        ([0, 1], [0.5, 0.5], "rev"), ([0, 1], [0.5, 1.0], "mix"), ([0, 1], [1.0, 1.0], "rev"),
+        ([0, 1], [1.0, 0.5], "mix"), ([0, 1], [0.5, 0.5], "mix"), ([0], [0.5, 0.5], "rev"),
+        ([1], [1.0, 0.5], "rev"), ([1], [0.5, 0.5], "mix"),
+    )
+]
 THOROUGH_GRIDS = QUICK_GRIDS + [
+    {"kind": "cube", "fracs": [0, 1], "cs": [0.5, 0.5], "ids": "rev"},
     {"kind": "sq", "fracs": [0, 1], "cs": [0.25, 0.5]},
     {"kind": "sq", "fracs": [1], "cs": [0.25, 0.5]},
     {"kind": "cube", "fracs": [], "cs": [0.5, 0.5]},
@@ -34,8 +47,36 @@ THOROUGH_GRIDS = QUICK_GRIDS + [
 ]
 
 
+def _reassemble(mdg, mode, key):
+    """A new md-grid from copies of the grids of ``mdg``, created in another order."""
+    import random as _random
+    sds, ifs = mdg.subdomains(), mdg.interfaces()
+    osd, oif = list(range(len(sds)))[::-1], list(range(len(ifs)))[::-1]
+    if mode == "mix":
+        r = _random.Random(repr(key))
+        r.shuffle(osd)
+        r.shuffle(oif)
+        if len(sds) > 1 and osd == list(range(len(sds))):
+            osd = osd[::-1]
+    new = pp.MixedDimensionalGrid()
+    cp = {}
+    for k in osd:
+        cp[sds[k]] = sds[k].copy()
+    new.add_subdomains([cp[sds[k]] for k in osd])
+    for k in oif:
+        intf = ifs[k]
+        fc = mdg.interface_data(intf)["face_cells"]
+        hi, lo = mdg.interface_to_subdomain_pair(intf)
+        mg = pp.MortarGrid(intf.dim, {s: g.copy() for s, g in intf.side_grids.items()}, fc)
+        new.add_interface(mg, (cp[hi], cp[lo]), fc)
+    new.set_boundary_grid_projections()
+    ids = [g.id for g in new.subdomains()]
+    assert len(sds) < 2 or ids != sorted(ids), "grid ids are still monotone in dimension"
+    return new
+
+
 def get_mdg(spec):
-    key = (spec["kind"], tuple(spec["fracs"]), tuple(spec["cs"]))
+    key = (spec["kind"], tuple(spec["fracs"]), tuple(spec["cs"]), spec.get("ids"))
     if key not in _POOL:
         if spec["kind"] == "sq":
             mdg, _ = square_with_orthogonal_fractures(
@@ -47,6 +88,8 @@ def get_mdg(spec):
             mdg, _ = cube_with_orthogonal_fractures(
                 "cartesian", {"cell_size": spec["cs"][0]}, list(spec["fracs"])
             )
+        if spec.get("ids"):
+            mdg = _reassemble(mdg, spec["ids"], key)
         _POOL[key] = mdg
         _ORIG[key] = ([(g.num_cells, g.num_faces, g.num_nodes) for g in mdg.subdomains()],
                       [i.num_cells for i in mdg.interfaces()])
@@ -255,8 +298,10 @@ class C05(Prop):
             "variables, references produced by md_variable(name[, domains]) (unknown and "
             "mixed-kind names included) and get_variables(variables, grids) (stale objects "
             "included), re-sizing of the grids (num_cells/faces/nodes patched, 0 included) with "
-            "and without a following update_variable_num_dofs, and full snapshots on 16 (quick) "
-            "/ 20 (thorough) Cartesian md-grids with 0-2 fractures; non-trivial = at least one "
+            "and without a following update_variable_num_dofs, and full snapshots on 24 (quick) "
+            "/ 29 (thorough) Cartesian md-grids with 0-2 fractures, 8 / 9 of them re-assembled "
+            "by hand from grid copies created in reversed or shuffled order so that grid ids are "
+            "not monotone in dimension (mdg.subdomains()/interfaces() order differs from id order); non-trivial = at least one "
             "removal followed by a creation or a snapshot with >= 2 registered variables; "
             "distinct by (case, output)")
     trusted = ["integer-valued arrays (exact in binary64 / int64) stand for the stored vectors; "
